@@ -3,6 +3,7 @@ package main
 import (
 	"fmt"
 	"go/token"
+	"go/types"
 	"strings"
 
 	"golang.org/x/tools/go/ssa"
@@ -140,6 +141,55 @@ func checkC18(c *Check) {
 			if walk(a, 5) {
 				singleFilterTimeouts = true
 			}
+		}
+	}
+	// the timeouts handed to a constructor are those of the filter being visited: an argument that is carried
+	// around the filter loop (a variable declared outside it, updated only by some filters) gives a filter the
+	// timeouts of an earlier one
+	for _, df := range deepFuncs(pre, 2) {
+		if pkgPathOf(df) != pkgOIDC {
+			continue
+		}
+		for _, ci := range allCalls(df) {
+			callee := ci.Common().StaticCallee()
+			if callee == nil || (callee.Name() != "NewMemoryStore" && callee.Name() != "NewRedisStore") {
+				continue
+			}
+			carried := false
+			seenV := map[ssa.Value]bool{}
+			var walk func(v ssa.Value, d int)
+			walk = func(v ssa.Value, d int) {
+				v = stripConv(v)
+				if d == 0 || seenV[v] {
+					return
+				}
+				seenV[v] = true
+				switch x := v.(type) {
+				case *ssa.BinOp:
+					walk(x.X, d-1)
+					walk(x.Y, d-1)
+				case *ssa.Phi:
+					for _, p := range x.Block().Preds {
+						if x.Block().Dominates(p) && isDurationLike(x.Type()) {
+							carried = true
+						}
+					}
+					for _, e := range x.Edges {
+						walk(e, d-1)
+					}
+				case *ssa.Extract:
+					walk(x.Tuple, d-1)
+				case *ssa.UnOp:
+					walk(x.X, d-1)
+				}
+			}
+			for _, a := range ci.Common().Args {
+				if isDurationLike(a.Type()) {
+					walk(a, 8)
+				}
+			}
+			c.Obl(!carried, "C18.R2", "timeouts-of-the-visited-filter/"+nthCallKey(ci), P.Pos(ci.Pos()), "the constructor's timeouts are computed from the filter being visited",
+				"a timeout handed to "+callee.Name()+" is carried around the filter loop: a filter that leaves it unset inherits the value of an earlier filter")
 		}
 	}
 	c.Obl(!(shared && singleFilterTimeouts), "C18.R2", "sessionStoreFactory.PreRun", P.Pos(pre.Pos()),
@@ -566,6 +616,34 @@ func checkC19(c *Check) {
 			prop = true
 		}
 	}
+	// the decision to skip the loader is a latch: the flag that guards the early `nothing to watch` return
+	// takes only constant values (set to true when a reference is seen, never recomputed by a later filter)
+	for _, ci := range callsToFn(pre, load) {
+		for i, r := range returnsOf(pre) {
+			if len(r.Results) != 1 || !isNilConst(r.Results[0]) || ci.Block().Dominates(r.Block()) {
+				continue
+			}
+			if reachAvoiding(nil, pre.Blocks[0], func(x ssa.Instruction) bool { return x == ssa.Instruction(r) }, func(x ssa.Instruction) bool { return x == ssa.Instruction(ci) }) == nil {
+				continue
+			}
+			cond := lastBranchCond(r)
+			if cond == nil {
+				continue
+			}
+			inner, _ := unwrapBool(cond)
+			latch := true
+			what := ""
+			for _, l := range LeavesInl(inner, leafOpts{}, 2, nil) {
+				if _, isC := constBool(l); isC {
+					continue
+				}
+				latch = false
+				what = descDepth(l, 3)
+			}
+			c.Obl(latch, "C19.R4", fmt.Sprintf("watch-decision-is-a-latch#%d", i+1), P.Pos(instrPos(r)), "the `nothing to watch` return is guarded by a flag that only takes constant values",
+				"the flag guarding the `nothing to watch` return can be recomputed ("+what+"): a later filter without a secret reference resets it and the references are never loaded nor checked")
+		}
+	}
 	c.Obl(prop, "C19.R4", "prerun-propagates", P.Pos(pre.Pos()), "PreRun returns the loader's error", "PreRun does not return the loader's error: a cross-namespace reference would start the service")
 	keyOK := false
 	if nn := P.Func(pkgK8s, "secretNamespacedName"); nn != nil {
@@ -628,6 +706,48 @@ func checkC19(c *Check) {
 				}
 			}
 		}
+	}
+	// the configuration a handler works with is the shared one or a copy made for this very handler: a copy
+	// kept across checks (package-level map, sync.Map, field of a long-lived object) freezes the secret it held
+	if R.NewOIDC != nil && R.OIDCType != nil {
+		var cfgParam *ssa.Parameter
+		for _, p := range R.NewOIDC.Params {
+			if typeID(p.Type()) == idOIDCConfig {
+				cfgParam = p
+			}
+		}
+		nCfg := 0
+		for name, vals := range handlerLiteralFields(R) {
+			for _, v := range vals {
+				if typeID(v.Type()) != idOIDCConfig {
+					continue
+				}
+				nCfg++
+				okSrc := cfgParam != nil
+				what := ""
+				for _, l := range Leaves(v, leafOpts{}) {
+					l = resolveCell(stripConv(l))
+					if cfgParam != nil && l == ssa.Value(cfgParam) {
+						continue
+					}
+					if ta, isTA := l.(*ssa.TypeAssert); isTA {
+						l = resolveCell(stripConv(ta.X))
+					}
+					if ex, isE := l.(*ssa.Extract); isE {
+						l = ex.Tuple
+					}
+					if cl, _, isC := asCall(l); isC && cl.Parent() == R.NewOIDC && strings.HasSuffix(funcID(calleeOf(cl).Obj), "proto.Clone") &&
+						resolveCell(stripConv(cl.Common().Args[0])) == ssa.Value(cfgParam) {
+						continue
+					}
+					okSrc = false
+					what = descDepth(l, 3)
+				}
+				c.Obl(okSrc, "C19.R5", "handler-config-is-shared-or-own-copy/"+name, P.Pos(R.NewOIDC.Pos()), "the handler's configuration is the constructor's parameter or proto.Clone of it made in this call",
+					"the handler's configuration can be "+what+": a copy that outlives the check keeps the client secret it was made with, later rotations never reach the token requests")
+			}
+		}
+		c.Obl(nCfg >= 1, "C19.R5", "handler-config-field", P.Pos(R.NewOIDC.Pos()), "the handler literal stores its configuration", "no configuration field found in the handler literal (anchor lost)")
 	}
 	c.Obl(cached == "", "C19.R5", "no-cached-secret", "-", "no own struct field is assigned from GetClientSecret()", "the client secret is cached in "+cached+": a later reconcile would not reach requests built from the cached copy")
 }
@@ -694,4 +814,29 @@ func discoveryCacheKeyRule(c *Check, rule string) {
 		c.Obl(okKey && nAcc >= 2 && fetchSame, rule, "discovery-cache-key", P.Pos(gw.Pos()), "the discovery cache is read and written under the exact configuration URI that is fetched",
 			"the discovery cache is not keyed by the exact configuration URI: two filters whose URIs differ (e.g. only in the query) can receive each other's endpoints")
 	}
+}
+
+func isDurationLike(t types.Type) bool {
+	b, ok := t.Underlying().(*types.Basic)
+	return ok && b.Info()&types.IsInteger != 0
+}
+
+// handlerLiteralFields: the values stored into the fields of the OIDC handler object built by its constructor.
+func handlerLiteralFields(R *Roles) map[string][]ssa.Value {
+	out := map[string][]ssa.Value{}
+	for _, b := range R.NewOIDC.Blocks {
+		for _, ins := range b.Instrs {
+			al, ok := ins.(*ssa.Alloc)
+			if !ok {
+				continue
+			}
+			if pt, isP := al.Type().(*types.Pointer); !isP || !types.Identical(pt.Elem(), R.OIDCType) {
+				continue
+			}
+			for name, vals := range structFieldStores(al) {
+				out[name] = append(out[name], vals...)
+			}
+		}
+	}
+	return out
 }
